@@ -98,6 +98,8 @@ class ExprMixin:
                 total = total + len(p.items)
             elif isinstance(p, PreSeq):
                 total = total + self.smt.int("len!" + p.path, nonneg=True)
+            elif type(p).__name__ == "EnumPart":
+                total = total + self.parts_len((p.inner,))
             elif isinstance(p, MapPart):
                 if p.total and not p.once and p.alts and all(len(items) == 1 for _g, items in p.alts):
                     # one item per element of the iterated sequence: same length
@@ -1088,6 +1090,10 @@ class ExprMixin:
         if isinstance(p, MapPart):
             # element of a mapped sequence: one of the alternatives' items; keep it abstract
             return Sym(f"map{p.lid}[*{lid}]", None), lid
+        from .values import EnumPart
+        if isinstance(p, EnumPart):
+            inner, lid2 = self.elem_of(p.inner)
+            return Tu((Elems((I(self.smt.int(f"idx!{lid2}", nonneg=True)), inner)),)), lid2
         raise Unsupported("element of part")
 
     def map_part(self, p, target, ifs, elt) -> MapPart:
